@@ -621,6 +621,14 @@ class RecorderDomain(Domain):
         if lab == 'builtin:hasattr' and len(args) == 2 and args[1].kind == 'const':
             if ('F', args[0].name, args[1].name) in state.env:
                 return TRUE
+        if lab == 'builtin:getattr' and len(args) >= 2 and args[1].kind == 'const' and isinstance(args[1].name, str) and \
+                args[0].kind in ('self', 'sym', 'obj'):
+            # getattr(obj, 'name'[, default]): the attribute's value when it was set on this path, otherwise the same symbol a plain read
+            # gives (a False / None default agrees with "not set yet" being falsy)
+            v = state.env.get(('F', args[0].name, args[1].name))
+            if v is not None:
+                return v
+            return sym(('attr', args[0].name, args[1].name), set(args[0].deps) | {'attr:%s' % args[1].name})
         if lab == 'builtin:type' and len(args) == 1:
             return V('obj', ('type-of', args[0].name), EMPTY)
         if lab.split('@')[0] in ('method:format', 'method:join', 'method:encode', 'builtin:str', 'builtin:repr',
